@@ -739,7 +739,7 @@ impl Xot {
                             let uri = parse_attribute(value.as_str().into(), value.start())?;
                             let span = Span::from_prefix_name(prefix, local);
                             builder.prefix(local.as_str(), &uri, span, self)?;
-                        } else if local.as_str() == "xmlns" {
+                        } else if prefix.is_empty() && local.as_str() == "xmlns" {
                             let uri = parse_attribute(value.as_str().into(), value.start())?;
                             builder.prefix("", &uri, local.into(), self)?;
                         } else {
